@@ -1721,9 +1721,9 @@ def c11_listing_group(mir, ctx):
     special = {}
     for cname in ("DIGITAL_SIGNATURE_STREAM_NAME", "MSI_DIGITAL_SIGNATURE_EX_STREAM_NAME", "SUMMARY_INFO_STREAM_NAME", "DOCUMENT_SUMMARY_INFO_STREAM_NAME"):
         mm = re.search(r"const %s: &str =\s*\"((?:[^\"\\]|\\.)*)\"" % cname, ssrc)
-        if not mm:
-            raise EncodingError("constant %s not found in streamname.rs" % cname)
-        special[cname] = mm.group(1)
+        # the four names are constants of the file format; a source that no longer declares one of them still has to hide that stream
+        special[cname] = mm.group(1) if mm else {"DIGITAL_SIGNATURE_STREAM_NAME": "\\u{5}DigitalSignature", "MSI_DIGITAL_SIGNATURE_EX_STREAM_NAME": "\\u{5}MsiDigitalSignatureEx",
+                                                  "SUMMARY_INFO_STREAM_NAME": "\\u{5}SummaryInformation", "DOCUMENT_SUMMARY_INFO_STREAM_NAME": "\\u{5}DocumentSummaryInformation"}[cname]
     eqs = {}
     n_entry = [0]
 
@@ -2353,7 +2353,7 @@ def c12_join_group(mir, ctx):
         ex.max_revisit = deeper(3)
         ex.no_inline = [r"Select::exec", r"Rows::", r"Table::", r"Row::new$", r"Expr::eval$", r"StringPool::", r"closure", r"Column::"]
         join = EnumV(variant=jv.index(vname), fields=[OpaqueV("lhs"), OpaqueV("rhs"), OpaqueV("on")])
-        outs = ex.run(fn, [join, OpaqueV("comp"), OpaqueV("pool"), OpaqueV("tables")])
+        outs = ex.run(fn, [join, OpaqueV("comp"), OpaqueV("pool"), OpaqueV("tables")] + [OpaqueV("extra-arg-%d" % i) for i in range(max(0, len(fn.args) - 4))])
         # ---- name gate: a join condition is evaluated only after every column name it mentions was
         # looked up in the joined table and found
         for k, o in enumerate(outs):
